@@ -3,3 +3,4 @@ import QeepTie.Act
 import QeepTie.Loss
 import QeepTie.FC
 import QeepTie.SGD
+import QeepTie.Valid
